@@ -69,6 +69,9 @@ impl SparqlNumber {
     pub fn try_parse_integer(lex: &str) -> Option<Self> {
         if let Ok(val) = lex.parse::<isize>() {
             Some(val.into())
+        } else if !is_integer_lexical(lex) {
+            // BigInt::from_str is more lenient than xsd:integer (underscores between digits)
+            None
         } else if let Ok(val) = lex.parse::<BigInt>() {
             Some(val.into())
         } else {
@@ -409,6 +412,39 @@ fn binary_float_exact_cmp(lhs: f64, rhs: &SparqlNumber) -> Option<std::cmp::Orde
             _ => lhs.partial_cmp(&rhs.coerce_to_decimal()),
         }
     }
+}
+
+/// Whether `lex` is in the lexical space of xsd:integer: an optional sign and at least one digit.
+pub(crate) fn is_integer_lexical(lex: &str) -> bool {
+    let digits = lex.strip_prefix(['+', '-']).unwrap_or(lex);
+    !digits.is_empty() && digits.bytes().all(|b| b.is_ascii_digit())
+}
+
+/// Whether `lex` is in the lexical space of xsd:decimal:
+/// an optional sign, then digits with an optional decimal point, and at least one digit.
+///
+/// `BigDecimal::from_str` is more lenient (exponents, underscores, a sign after the point).
+pub(crate) fn is_decimal_lexical(lex: &str) -> bool {
+    let unsigned = lex.strip_prefix(['+', '-']).unwrap_or(lex);
+    let (int, frac) = unsigned.split_once('.').unwrap_or((unsigned, ""));
+    !(int.is_empty() && frac.is_empty())
+        && int.bytes().chain(frac.bytes()).all(|b| b.is_ascii_digit())
+}
+
+/// Whether `lex` is in the lexical space of xsd:float and xsd:double:
+/// `INF`, `+INF`, `-INF`, `NaN`, or a decimal with an optional integer exponent.
+///
+/// `f32::from_str` and `f64::from_str` are more lenient
+/// (`inf`, `infinity` and `nan` in any case, with any sign).
+pub(crate) fn is_float_lexical(lex: &str) -> bool {
+    if matches!(lex, "INF" | "+INF" | "-INF" | "NaN") {
+        return true;
+    }
+    let (mantissa, exponent) = match lex.split_once(['e', 'E']) {
+        Some((mantissa, exponent)) => (mantissa, Some(exponent)),
+        None => (lex, None),
+    };
+    is_decimal_lexical(mantissa) && exponent.is_none_or(is_integer_lexical)
 }
 
 static DEC_0_5: LazyLock<BigDecimal> = LazyLock::new(|| BigDecimal::one() / 2);
